@@ -3,6 +3,7 @@ package main
 import (
 	"context"
 	"fmt"
+	"io"
 	"sort"
 	"time"
 
@@ -19,7 +20,7 @@ import (
 func init() { register("C16", "exploration", runC16) }
 
 func runC16(run *common.Run) {
-	run.Rule = "Part 'policy' (sequential): case = generated table (families with max-versions 1..3, max-age, union of both, nested union, intersection [unsupported], no rule) with cells exactly at, 1 ms before and 1 ms after the max-age cut-off, several versions, rows that become empty, plus a second table without rules; one real pass forced through the hook entry point with the injected clock; full scans before/after compared with the GC model, emptied rows absent from ReadRows and SampleRowKeys. Part 'race': case = one forced pass over 250-1200 rows during which, at every point where the pass has released the table lock (hook gc.unlocked), client requests are performed and acknowledged: 1-3 row writes (new cell, overwrite, old-timestamp cell, DeleteFromRow) to rows behind, at and ahead of the cursor, and/or DropRowRange of a ten-row prefix block (one pass in four: only DropRowRange, no data-plane request at all), or a single ModifyColumnFamilies drop of a family; final scan: every written row must equal 'GC applied at some position of its acknowledged write sequence', unwritten rows GC(initial) [all three engines]. Part 'idle': a pass on a table used just now changes nothing, after pretending 10 min of inactivity it collects; a pass over >= 2000 rows releases the lock at least once and clients complete while it is parked there. Non-trivial = pass that removed some but not all cells (policy) / pass with >= 1 injected write acknowledged (race); distinct by case."
+	run.Rule = "Part 'policy' (sequential): case = generated table (families with max-versions 1..3, max-age, union of both, nested union, intersection [unsupported], no rule) with cells exactly at, 1 ms before and 1 ms after the max-age cut-off, several versions, rows that become empty, plus a second table without rules; one real pass forced through the hook entry point with the injected clock; full scans before/after compared with the GC model, emptied rows absent from ReadRows and SampleRowKeys. Part 'race': case = one forced pass over 250-1200 rows during which, at every point where the pass has released the table lock (hook gc.unlocked), client requests are performed and acknowledged: 1-3 row writes (new cell, overwrite, old-timestamp cell, DeleteFromRow; sent as MutateRow, a MutateRows entry, a CheckAndMutateRow branch or a ReadModifyWriteRow append/increment) to rows behind, at and ahead of the cursor, and/or DropRowRange of a ten-row prefix block (one pass in four: only DropRowRange, no data-plane request at all), or a single ModifyColumnFamilies drop of a family; final scan: every written row must equal 'GC applied at some position of its acknowledged write sequence', unwritten rows GC(initial) [all three engines]. Part 'idle': a pass on a table used just now changes nothing, after pretending 10 min of inactivity it collects; a pass over >= 2000 rows releases the lock at least once and clients complete while it is parked there. Non-trivial = pass that removed some but not all cells (policy) / pass with >= 1 injected write acknowledged (race); distinct by case."
 	run.Assumptions = []string{"GC model: max-versions keeps the N newest, max-age condemns ts < now-age, union = either, unsupported types leave the family alone", "nested intersection inside a union is not generated", "the 15-60 s scheduling loop itself is not waited for; the pass is entered through the verif hook"}
 	if run.WantSub("policy") {
 		c16Policy(run)
@@ -199,6 +200,7 @@ type c16PassResult struct {
 	hits        int
 	rowsWritten int
 	mode        int
+	rmw, cam    int // injected writes that arrived as ReadModifyWriteRow / CheckAndMutateRow
 	drops       int // DropRowRange / ModifyColumnFamilies requests acknowledged while the pass was parked
 }
 
@@ -222,6 +224,8 @@ func c16Race(run *common.Run) {
 		run.Count("injected_writes_acknowledged_while_pass_parked", int64(res.injected))
 		run.Count("rows_written_during_a_pass", int64(res.rowsWritten))
 		run.Count("admin_drops_acknowledged_while_pass_parked", int64(res.drops))
+		run.Count("injected_read_modify_writes", int64(res.rmw))
+		run.Count("injected_check_and_mutates", int64(res.cam))
 		run.Count(fmt.Sprintf("passes_mode_%d", res.mode), 1)
 		if p < 2 {
 			run.Sample(res.info)
@@ -376,7 +380,51 @@ func c16RacePass(r *common.Rand, engine string, allowDelete bool) (out c16PassRe
 					muts = []model.Mut{{Kind: model.SetCell, Fam: "plain", Qual: fmt.Sprint("n", injected), TS: fresh, Val: "plain"}, {Kind: model.SetCell, Fam: "f", Qual: "q", TS: fresh + 1000, Val: fmt.Sprint("newer", injected)}}
 				}
 				ctx, cancel := context.WithTimeout(context.Background(), 20*time.Second)
-				_, err := srv.Data.MutateRow(ctx, &btpb.MutateRowRequest{TableName: table, RowKey: []byte(key(target)), Mutations: drive.MutsToProto(muts)})
+				var err error
+				switch via := r.Intn(6); via {
+				case 0:
+					// the write arrives as a ReadModifyWriteRow (append to the newest cell of f:q / increment of a counter
+					// column); what it stored is taken from its response
+					rules := []drive.Rule{{Fam: "f", Qual: "q", Append: true, Val: fmt.Sprint("+a", injected)}}
+					if r.Bool() {
+						rules = []drive.Rule{{Fam: "plain", Qual: "ctr", Inc: 1}}
+					}
+					var res *btpb.ReadModifyWriteRowResponse
+					res, err = srv.Data.ReadModifyWriteRow(ctx, &btpb.ReadModifyWriteRowRequest{TableName: table, RowKey: []byte(key(target)), Rules: drive.RulesToProto(rules)})
+					if err == nil {
+						muts = nil
+						for _, c := range drive.RowFromProto(res.Row).Cells {
+							muts = append(muts, model.Mut{Kind: model.SetCell, Fam: c.Fam, Qual: c.Qual, TS: c.TS, Val: c.Val})
+						}
+						out.rmw++
+					}
+				case 1:
+					// ... or as the selected branch of a CheckAndMutateRow (no predicate: true iff the row has a cell)
+					other := []model.Mut{{Kind: model.SetCell, Fam: "plain", Qual: "absent", TS: fresh, Val: fmt.Sprint("cam", injected)}}
+					var res *btpb.CheckAndMutateRowResponse
+					res, err = srv.Data.CheckAndMutateRow(ctx, &btpb.CheckAndMutateRowRequest{TableName: table, RowKey: []byte(key(target)), TrueMutations: drive.MutsToProto(muts), FalseMutations: drive.MutsToProto(other)})
+					if err == nil {
+						if !res.PredicateMatched {
+							muts = other
+						}
+						out.cam++
+					}
+				case 2:
+					var st btpb.Bigtable_MutateRowsClient
+					st, err = srv.Data.MutateRows(ctx, &btpb.MutateRowsRequest{TableName: table, Entries: []*btpb.MutateRowsRequest_Entry{{RowKey: []byte(key(target)), Mutations: drive.MutsToProto(muts)}}})
+					if err == nil {
+						for {
+							if _, e := st.Recv(); e != nil {
+								if e != io.EOF {
+									err = e
+								}
+								break
+							}
+						}
+					}
+				default:
+					_, err = srv.Data.MutateRow(ctx, &btpb.MutateRowRequest{TableName: table, RowKey: []byte(key(target)), Mutations: drive.MutsToProto(muts)})
+				}
 				cancel()
 				if err != nil {
 					hangMsg = fmt.Sprintf("client write issued while the pass was parked at its unlock point (cursor %s) did not complete: %v", k, err)
